@@ -7,7 +7,7 @@ from typing import Dict, List
 
 from . import arrays, sym
 from .sym import Expr
-from .values import (Alt, Arr, Bag, Blocks, Concat, DiagMat, DictV, FuncV, ModV, NoneV, ObjV, Sc, Seq, Space, StrV,
+from .values import (PSet, Alt, Arr, Bag, Blocks, Concat, DiagMat, DictV, FuncV, ModV, NoneV, ObjV, Sc, Seq, Space, StrV,
                      Unknown, Val, fix, fresh, generic_elem, rng, rows, shape_of)
 
 CONSTANTS = {
@@ -1031,6 +1031,79 @@ def p_lsa(I, n, pos, kw):
     return Seq([r, c], "tuple")
 
 
+def _pset_of(I, v):
+    """membership predicate of what set(v) would contain, or None"""
+    e_ = sym.IV(PSet.VAR)
+    if isinstance(v, PSet):
+        return v.pred
+    if isinstance(v, ObjV) and v.tag == "range":
+        return sym.And(sym.Cmp(">=", e_, v.attrs["lo"].e), sym.Cmp("<", e_, v.attrs["hi"].e))
+    if isinstance(v, Seq) and all(isinstance(x, Sc) and x.e is not None for x in v.items):
+        return sym.Or(*[sym.Cmp("==", e_, x.e) for x in v.items]) if v.items else sym.FALSE
+    if isinstance(v, Alt) and getattr(v, "conds", None) and len(v.conds) == len(v.vals):
+        out = None
+        for c, x in reversed(list(zip(v.conds, v.vals))):
+            p = _pset_of(I, x)
+            if p is None:
+                return None
+            out = p if out is None else sym.ITE(c, p, out)
+        return out
+    return None
+
+
+@prim("builtins.set", "builtins.frozenset")
+def p_set(I, n, pos, kw):
+    if not pos:
+        return PSet(sym.FALSE)
+    p = _pset_of(I, pos[0])
+    if p is not None:
+        return PSet(p)
+    v = pos[0]
+    if isinstance(v, (Bag, Concat)):
+        return v
+    if isinstance(v, Arr):
+        return Bag(v.elem, None, False, v.uid)
+    return I.unknown("set-of-" + type(v).__name__, n, (generic_elem(v),))
+
+
+@prim("numpy.flatnonzero")
+def p_flatnonzero(I, n, pos, kw):
+    m = pos[0] if isinstance(pos[0], Arr) else arrays.to_arr(pos[0])
+    if isinstance(m, Arr) and m.ndim == 1:
+        sp, iv = m.axes[0]
+        e_ = sym.IV(PSet.VAR)
+        cond = sym.subst_ivar(m.elem, iv, (PSet.VAR, 0))
+        if not _is_boolish(cond):
+            cond = sym.Cmp("!=", cond, sym.ZERO)
+        return PSet(sym.And(sym.Cmp(">=", e_, sym.ZERO), sym.Cmp("<", e_, sp.size), cond))
+    return I.unknown("flatnonzero", n)
+
+
+def _is_boolish(e):
+    return e[0] in ("cmp", "bool", "and", "or", "not") or (e[0] == "fn" and e[1] in ("isfinite", "isinf", "isnan")) \
+        or (e[0] == "ite" and _is_boolish(e[2]) and _is_boolish(e[3]))
+
+
+@method("tolist")
+def m_tolist(I, n, recv, pos, kw):
+    if isinstance(recv, PSet):
+        return recv
+    if isinstance(recv, Arr):
+        return Arr(recv.axes, recv.elem, "list", recv.uid)
+    if isinstance(recv, (Bag, Concat, Seq, Sc)):
+        return recv
+    return I.unknown("tolist-on-" + type(recv).__name__, n)
+
+
+@method("add")
+def m_add(I, n, recv, pos, kw):
+    if isinstance(recv, PSet) and len(pos) == 1 and isinstance(pos[0], Sc) and pos[0].e is not None:
+        recv.pred = sym.Or(recv.pred, sym.Cmp("==", sym.IV(PSet.VAR), pos[0].e))
+        I.event("set-add", n, target=recv, value=pos[0])
+        return NoneV()
+    return I.unknown("add-on-" + type(recv).__name__, n)
+
+
 @prim("hopcroftkarp.HopcroftKarp")
 def p_hk(I, n, pos, kw):
     g = pos[0]
@@ -1051,6 +1124,12 @@ def m_maximum_matching(I, n, recv, pos, kw):
         if isinstance(g, DictV):
             vals = list(g.d.values()) + ([g.generic] if g.generic is not None else [])
             conds = tuple(v.size for v in vals if isinstance(v, Bag) and v.size is not None)
+            psets = []
+            for v in vals:
+                for x in (v.vals if isinstance(v, Alt) else [v]):
+                    if isinstance(x, PSet):
+                        psets.append(sym.Opq("count", (x.pred,), None))
+            conds = conds + tuple(psets)
         return ObjV(None, dict(deps=conds, uid=uid, graph=g), tag="hk_matching")
     return I.unknown("maximum_matching", n)
 
